@@ -14,6 +14,9 @@ var needCapOne = map[string]string{
 }
 
 func runC19(p *Prog, r *Report) {
+	acceptedOptionsKnownToGet(p, r, "C19.19/accepted-options-known-to-get")
+	r.Floor("C19.19/accepted-options-known-to-get", "endpoint_option_pairs.C19.19/accepted-options-known-to-get", 6)
+	ipcPermissionsOnEveryBind(p, r, "C19.20/ipc-permissions-on-every-bind")
 	wsCheckOriginBothWays(p, r, "C19.16/switch-option-both-ways")
 	runSweeps(p, r, "C19.14/option-reaches-every-endpoint", "a socket option that endpoints inherit is passed to every dialer and listener of the socket", optionSweeps)
 	optionTypeAgreement(p, r, "C19.12/option-type-agreement")
